@@ -59,7 +59,7 @@ def _prim_names(node):
 def _raiser(m):
     """the raiser with its private matching helpers inlined (a helper that hands back
     (operation, operands) through early returns becomes the if/else chain it is)"""
-    return m.split_tuples(m.inlined(m.func(RAISER)))
+    return m.split_tuples(m.inlined(m.func(RAISER), exclude=(CASCADE.split(".")[-1],)))
 
 
 def _branches(fd):
@@ -79,7 +79,8 @@ def r_arity(c):
                    for x in ast.walk(fd0)):
             continue
         # matching helpers that hand back (operation, operands) are seen through
-        fd = m.split_tuples(m.inlined(fd0)) if m.enclosing_function(fd0) is None else fd0
+        fd = m.split_tuples(m.inlined(fd0, exclude=(CASCADE.split(".")[-1],))) \
+            if m.enclosing_function(fd0) is None else fd0
         for call in ast.walk(fd):
             if not (isinstance(call, ast.Call) and isinstance(call.func, (ast.Name, ast.Attribute))):
                 continue
@@ -408,7 +409,8 @@ def r_producer(c):
     m = c.model
     arr = m.module("pytato.array")
     utils = m.module("pytato.utils")
-    rsrc = "\n".join(ast.unparse(f_) for f_ in m.scope(m.func(RAISER)))
+    # (the raiser and its matching helpers; the operand cascade is another matter)
+    rsrc = ast.unparse(_raiser(m))
     for fn, prim in PRODUCERS.items():
         if fn not in arr.functions:
             raise AnalysisError(f"anchor vanished: pytato.array.{fn}")
